@@ -197,6 +197,7 @@ def plan(pid: str, tier: str, seed: int) -> dict:
         progs = [PR.by_name(n) for n in (("chain2", "diamond", "poll", "selfloop", "failbranch") if quick else CORE)]
         return dict(
             progs=progs, props=["C09_NoRehandle", "C02_NoReexec", "C02_StartOnce"],
+            component=lambda rep: dedup_component(rep, tier, seed),
             jobs=lambda refs: [
                 {"kind": "redeliver", "prog": p, "cases": cs, "opts": o}
                 for p in progs
@@ -304,6 +305,7 @@ def plan(pid: str, tier: str, seed: int) -> dict:
                               + [{"kind": "crash", "prog": p, "points": pts, "late_expire": le}
                                  for p in progs for le in (False, True)
                                  for pts in chunks(range(1, refs[p["name"]]["commits"] + 1, 2 if quick else 1), 24)],
+            component=lambda rep: __import__("harness.check_race", fromlist=["component"]).component(rep, tier, seed, "siblings"),
             mc=[(n, {"AnyOrder": "TRUE"}, {}) for n in ("mutex3", "choice3", "choice2", "mutexfail")]
                + [("mutex2", {"AnyOrder": "TRUE", "MaxEarly": 1}, {})]
                + [(n, {"AnyOrder": "FALSE", "MaxCrashes": 1}, {}) for n in ("mutex2", "mutex3", "choice2", "choice3")]
@@ -312,6 +314,26 @@ def plan(pid: str, tier: str, seed: int) -> dict:
             allow_ref_mismatch=True,
         )
     raise KeyError(pid)
+
+
+def adapt_component(rep: Reporter, res: dict) -> dict:
+    """fold the result of a component module (comp_dedup / comp_reducers: run_component()) into a check"""
+    if res.get("machinery"):
+        rep.machinery_failure(str(res["machinery"]))
+    for v in res.get("violations", []):
+        ctx = dict(v.get("ctx") or {})
+        ctx.setdefault("formula", "COMPONENT")
+        ctx.setdefault("program", {"stages": []})
+        ctx.setdefault("state", None)
+        rep.violation(v["what"], ctx, v.get("replay") or {})
+    return {"states": res.get("states", 0), "transitions": res.get("transitions", 0),
+            "replayed": res.get("cases_replayed", 0), "configs": res.get("details"), "samples": res.get("samples", [])[:3]}
+
+
+def dedup_component(rep: Reporter, tier: str, seed: int) -> dict:
+    from . import comp_dedup   # registers its finding predicate at import
+
+    return adapt_component(rep, comp_dedup.run_component(tier, seed))
 
 
 # ----- runner ----------------------------------------------------------------------------------------
@@ -426,6 +448,11 @@ def run(pid: str, tier: str, seed: int) -> int:
             else:
                 rep.machinery_failure(f"model {m.config}: {formula} is false in the model but the counter-example is "
                                       f"{res['status']} on the real engine ({res.get('why', '')}) - the model misrepresents the code")
+    comp = None
+    if pl.get("component"):
+        comp = pl["component"](rep)
+        states += comp["states"]
+        transitions += comp["transitions"]
     for (n, r, i) in oracle_mismatch:
         ctx = {"formula": "ORACLE", "state": None, "program": byname[n], "source": "oracle"}
         rep.violation(f"{n}: fault-free in-order run of the real engine {r} differs from the declarative outcome {i}",
@@ -433,7 +460,8 @@ def run(pid: str, tier: str, seed: int) -> int:
     rc = rep.finish()
     cov = {
         "states": max(states, 1), "transitions": max(transitions, 1),
-        "traces_validated_against_impl": acc,
+        "traces_validated_against_impl": acc + (comp["replayed"] if comp else 0),
+        "race_component": ({k: comp[k] for k in ("replayed", "configs", "samples")} if comp else None),
         "samples": samples or [{"note": "no traces"}],
         "traces_recorded": ntr, "events_validated": events, "programs": len(progs),
         "formulas": pl["props"], "model_checking_runs": mcinfo,
